@@ -270,7 +270,7 @@ func TestProp_C20_kit(t *testing.T) { propC20Kit.Check(t) }
 // ---------------------------------------------------------------- driver level
 
 func genC20Driver(t *rapid.T) bson.D {
-	ids := []interface{}{int32(1), bson.D{{Key: "x", Value: int32(1)}}, bson.A{int32(1)}, gen.HostileValue(1).Draw(t, "hid"), gen.OID1}
+	ids := []interface{}{int32(1), bson.D{{Key: "x", Value: int32(1)}}, bson.A{int32(1)}, gen.HostileValue(1).Draw(t, "hid"), gen.OID1, bson.D{}, nil, ""}
 	docs := bson.A{}
 	for i, n := 0, rapid.IntRange(1, 3).Draw(t, "nd"); i < n; i++ {
 		d := gen.HostileDoc(2).Draw(t, "doc")
@@ -279,10 +279,25 @@ func genC20Driver(t *rapid.T) bson.D {
 		}
 		docs = append(docs, d)
 	}
+	update := gen.HostileUpdate().Draw(t, "update")
+	if rapid.IntRange(0, 999).Draw(t, "idupd")%8 == 3 {
+		// updates aimed at the document id
+		update = rapid.SampledFrom([]bson.D{
+			{{Key: "$unset", Value: bson.D{{Key: "_id", Value: ""}}}},
+			{{Key: "$rename", Value: bson.D{{Key: "_id", Value: "x"}}}},
+			{{Key: "$rename", Value: bson.D{{Key: "a", Value: "_id"}}}},
+			{{Key: "$set", Value: bson.D{{Key: "_id", Value: bson.D{}}}}},
+			{{Key: "$set", Value: bson.D{{Key: "_id.x", Value: int32(1)}}}},
+			{{Key: "$unset", Value: bson.D{{Key: "_id.x", Value: ""}}}},
+			{{Key: "$inc", Value: bson.D{{Key: "_id", Value: int32(0)}}}},
+			{{Key: "$push", Value: bson.D{{Key: "_id", Value: int32(1)}}}},
+			{{Key: "$pop", Value: bson.D{{Key: "_id", Value: int32(1)}}}},
+		}).Draw(t, "idupdate")
+	}
 	return bson.D{
 		{Key: "docs", Value: docs},
 		{Key: "filter", Value: gen.HostileFilter(2).Draw(t, "filter")},
-		{Key: "update", Value: gen.HostileUpdate().Draw(t, "update")},
+		{Key: "update", Value: update},
 		{Key: "afs", Value: bson.A{gen.HostileFilter(1).Draw(t, "af1")}},
 		{Key: "proj", Value: gen.HostileProjection().Draw(t, "proj")},
 		{Key: "sort", Value: gen.HostileSort().Draw(t, "sort")},
@@ -380,6 +395,23 @@ func runC20Driver(c bson.D, x *Ctx) error {
 				mongo.NewReplaceOneModel().SetFilter(bson.D{}).SetReplacement(freshD(repl)),
 				mongo.NewDeleteOneModel().SetFilter(freshD(filter)),
 			}, options.BulkWrite().SetOrdered(false))
+			return err
+		})
+		run("BulkWrite(ordered)", func() error {
+			// well-formed items around the generated ones: an ordered bulk
+			// stops at the first failing item
+			_, err := coll.BulkWrite(ctx, []mongo.WriteModel{
+				mongo.NewInsertOneModel().SetDocument(bson.D{{Key: "_id", Value: "bulk-1"}}),
+				mongo.NewUpdateManyModel().SetFilter(freshD(filter)).SetUpdate(freshD(update)).SetUpsert(upsert),
+				mongo.NewInsertOneModel().SetDocument(bson.D{{Key: "_id", Value: "bulk-1"}}),
+				mongo.NewReplaceOneModel().SetFilter(bson.D{}).SetReplacement(freshD(repl)),
+				mongo.NewDeleteManyModel().SetFilter(freshD(filter)),
+				mongo.NewInsertOneModel().SetDocument(bson.D{{Key: "_id", Value: "bulk-2"}}),
+			}, options.BulkWrite().SetOrdered(true))
+			return err
+		})
+		run("InsertMany(ordered)", func() error {
+			_, err := coll.InsertMany(ctx, append(append([]interface{}{bson.D{{Key: "_id", Value: "im-1"}}}, docs...), bson.D{{Key: "_id", Value: "im-1"}}, bson.D{{Key: "_id", Value: "im-2"}}), options.InsertMany().SetOrdered(true))
 			return err
 		})
 		run("DeleteMany", func() error { _, err := coll.DeleteMany(ctx, freshD(filter)); return err })
